@@ -1362,4 +1362,14 @@ theorem branch_id {h : Hist} {o : LoadOpts} {m : LMap} (hl : load h o = .ok m)
     rw [hres]
     simp [bind, Except.bind, pure, Except.pure, hp.2.2.2.2, hrev]
 
+/-- the same against the history as written: on the branch = ancestor or descendant of the branch's
+revision along the `down_revision` links in the files -/
+theorem branch_id_history {h : Hist} {o : LoadOpts} {m : LMap} (hl : load h o = .ok m)
+    (hu : (h.map (·.id)).Nodup) (hd : ∀ r ∈ h, ∀ d ∈ r.down, d ∈ h.map (·.id))
+    (L : String) (br : Id) (hb : BranchName m L br) (i : Id) (hi : i ∈ m.ids) (hp : Plain i) :
+    (downLineage h br i = true → getRevisions m (L ++ "@" ++ i) = .ok [some i]) ∧
+    (downLineage h br i = false → getRevisions m (L ++ "@" ++ i) = .error .resolution) := by
+  rw [← sharesLineage_history hl hu hd i br]
+  exact branch_id hl L br hb i hi hp
+
 end C16
